@@ -140,6 +140,7 @@ structure TBDrv where
   model : Option State := none
   lastObs : Option TBSpec.Obs := none
   pending : Option TBPending := none
+  inBurst : Bool := false        -- between `burst-begin` and `burst-end`: operations linearised from a concurrent burst
   dead : Bool := false
   diverged : Bool := false     -- model and implementation have disagreed in this history: monitors only from here on
   mon : TBSpec.Mon := {}
@@ -172,7 +173,8 @@ def tbLineMon (d : TBDrv) (lineNo : Nat) (ts : List String) : TBDrv × List Stri
   | ["close"] => op "close" false
   | ["release"] => op "release" false
   | ["start"] => op "start" false
-  | ["burst-end"] => ({ d with pending := some { label := "burst-end", line := lineNo, implOk := true, membership := false } }, [])
+  | ["burst-begin"] => ({ d with inBurst := true }, [])
+  | ["burst-end"] => ({ d with inBurst := false, pending := some { label := "burst-end", line := lineNo, implOk := true, membership := false } }, [])
   | ["autojoin"] => (d, [])
   | "setup" :: _ => op "setup" false
   | "finish" :: _ => op "finish" false (setPending := false)
@@ -230,7 +232,7 @@ def tbLineCore (d : TBDrv) (lineNo : Nat) (ts : List String) : TBDrv × List Str
                           mode := modeOf ((kv rest "mode").getD "ct") }
       let h := (kvNat rest "h").getD (d.hist + 1)
       ({ d with hist := h, cfg := cfg, model := some (create cfg b), lastObs := none, pending := some { label := "new", line := lineNo, implOk := true, membership := false },
-                dead := false, diverged := false, mon := {}, cnt := (d.cnt.bump "histories").bump s!"seats{n}" }, [])
+                dead := false, diverged := false, inBurst := false, mon := {}, cnt := (d.cnt.bump "histories").bump s!"seats{n}" }, [])
     | _, _, _ => (d, [s!"BADLINE {lineNo} tb-new"])
   | "end" :: _ => ({ d with model := none, pending := none }, [])
   | "hang" :: _ =>
@@ -291,6 +293,16 @@ def tbLineCore (d : TBDrv) (lineNo : Nat) (ts : List String) : TBDrv × List Str
   | "update" :: rest =>
     match (kv rest "joins").bind parseJoins, (kv rest "leaves").bind natList, (kv rest "ch").bind intList with
     | some js, some lv, some ch =>
+      -- a batch update that failed during a concurrent burst leaves no notification of its own (D20: its departures are
+      -- applied silently); the linearisation can place it only by those departures, and whether and how its join half
+      -- fails depends on where exactly it ran. The model applies what is known — the departures — and the state at the
+      -- end of the burst is compared as a whole.
+      if d.inBurst && post.head? == some "err" && !lv.isEmpty then
+        let r := batchRemove m lv
+        ({ d with model := some (if r.2 == .ok then r.1 else m), cnt := (d.cnt.bump "update").bump "update.burst-refusal",
+                  pending := some { label := "update", line := lineNo, implOk := false, membership := true },
+                  mon := TBSpec.noteOp d.mon "update" (pre ++ post.map (fun t => "res:" ++ t)) false d.lastObs }, [])
+      else
       if (update m js lv ch).2 == .ok && !(decide (DrawLegal m (.update js lv ch))) then
         mism d s!"op=update recorded-seat-draw-not-legal ch={ch}"
       else accept "update" (update m js lv ch) true
@@ -302,7 +314,8 @@ def tbLineCore (d : TBDrv) (lineNo : Nat) (ts : List String) : TBDrv × List Str
   | ["pause"] => silent "pause" (pause m)
   | ["close"] => silent "close" (close m)
   | ["release"] => silent "release" (release m)
-  | ["burst-end"] => ({ d with pending := some { label := "burst-end", line := lineNo, implOk := true, membership := false } }, [])
+  | ["burst-begin"] => ({ d with inBurst := true }, [])
+  | ["burst-end"] => ({ d with inBurst := false, pending := some { label := "burst-end", line := lineNo, implOk := true, membership := false } }, [])
   | ["start"] => silent "start" (start m)
   | ["autojoin"] => ({ d with model := some (autoJoinStale m), cnt := d.cnt.bump "autojoin-stale" }, [])
   | "setup" :: rest =>
